@@ -6,6 +6,7 @@ import (
 	"github.com/wundergraph/graphql-go-tools/v2/pkg/caching"
 	"github.com/wundergraph/graphql-go-tools/v2/pkg/engine/plan"
 	"github.com/wundergraph/graphql-go-tools/v2/pkg/engine/postprocess"
+	"github.com/wundergraph/graphql-go-tools/v2/pkg/engine/resolve"
 )
 
 // Added by the verification overlay (declarations only).
@@ -24,4 +25,12 @@ func (e *Configuration) VerifPlannerConfig() *plan.Configuration { return &e.pla
 // single fetch de-duplication off) to an engine.
 func (e *ExecutionEngine) VerifAddPostProcessorOptions(opts ...postprocess.ProcessorOption) {
 	e.postProcessorOptions = append(e.postProcessorOptions, opts...)
+}
+
+// VerifWithRateLimiter switches pre-fetch rate limiting on for one execution.
+func VerifWithRateLimiter(l resolve.RateLimiter) ExecutionOptions {
+	return func(ctx *internalExecutionContext) {
+		ctx.resolveContext.SetRateLimiter(l)
+		ctx.resolveContext.RateLimitOptions.Enable = true
+	}
 }
